@@ -9,7 +9,14 @@ def check(run, only=None):
 
     def lazy_eq(run, arms):
         # equality / inequality with a None operand: decided on the real equality helper with the eval_rec oracle (see C05)
-        hs = [h for h in c05.gen(run, run.tier) if (lambda h: h.name.startswith(('eq_', 'neq_')) and 'none' in h.name)(h)]
+        from ..common import EncodingError
+        try:
+            allh = c05.gen(run, run.tier)
+        except EncodingError as e:
+            # == / != implemented by strict functions of two values: decided by the strict-equality cells instead
+            run.notes.append(f"lazy equality harnesses not applicable: {e}")
+            return []
+        hs = [h for h in allh if (lambda h: h.name.startswith(('eq_', 'neq_')) and 'none' in h.name)(h)]
         for h in hs:
             h.spec = cells.Spec("", quick=True)
             h.variant, h.tags = "Equals", ("lazy",)
